@@ -240,12 +240,22 @@ Inductive event :=
 | OnIteration (m : inst) (t : Z)     (* t = elapsed microseconds handed to on_iteration *)
 | OnDisable (m : inst).
 
+(* One pass of the loop head of run(): (clock, isAutonomousEnabled(), dis).
+   [dis]: disable() is called on the selector while this pass is in progress,
+   after its _on_iteration(...) and before the next pass reads the loop head --
+   by one of the iter_fn hooks of this pass, or by another thread while the loop
+   sits in delay.wait().  (disable() is a public method; run() itself calls it
+   only after the loop.) *)
+Definition wake := (Z * bool * bool)%type.
+Definition wake_now (w : wake) : Z := fst (fst w).
+Definition wake_enabled (w : wake) : bool := snd (fst w).
+Definition wake_disable (w : wake) : bool := snd w.
+
 Inductive op :=
 | Start (s : sel) (now : Z)                              (* start() called when the clock reads now *)
 | Periodic (now : Z)                                     (* periodic() *)
 | Disable                                                (* disable() *)
-| RunPeriod (s : sel) (t0 : Z) (wakes : list (Z * bool)) (* run(): entered at t0; every pass of the
-                                                            loop head reads (clock, isAutonomousEnabled()) *)
+| RunPeriod (s : sel) (t0 : Z) (wakes : list wake)       (* run(): entered at t0; one entry per pass of the loop head *)
 | EndCompetition.                                        (* endCompetition() *)
 
 Record lstate := mkL {
@@ -278,21 +288,30 @@ Definition do_periodic (st : lstate) (now : Z) : option (list event) :=
   | Some t0 => Some (on_iteration st (now - t0)%Z)
   end.
 
-(* while not self.robot_exit: refreshData(); if not isAutonomousEnabled(): break; ...; delay.wait()
+(* while not self.robot_exit: refreshData(); if not isAutonomousEnabled(): break;
+     observe(); self._on_iteration(timer.get()); for fn in iter_fn: fn(); delay.wait()
+   _on_iteration reads self.active_mode afresh in every pass, so a disable()
+   that arrives during a pass (see [wake]) is seen by all later passes: the state
+   is threaded through the loop.
    An exhausted list stands for robot_exit having been set during the last wait. *)
-Fixpoint run_loop (st : lstate) (t0 : Z) (wakes : list (Z * bool)) : list event :=
+Fixpoint run_loop (st : lstate) (t0 : Z) (wakes : list wake) : lstate * list event :=
   match wakes with
-  | [] => []
-  | (now, en) :: rest =>
-    if en then on_iteration st (now - t0)%Z ++ run_loop st t0 rest else []
+  | [] => (st, [])
+  | (now, en, dis) :: rest =>
+    if en then
+      let e1 := on_iteration st (now - t0)%Z in
+      let '(st1, e2) := if dis then do_disable st else (st, []) in
+      let '(st2, e3) := run_loop st1 t0 rest in
+      (st2, e1 ++ e2 ++ e3)
+    else (st, [])
   end.
 
-Definition do_run (r : selector) (st : lstate) (s : sel) (t0 : Z) (wakes : list (Z * bool))
+Definition do_run (r : selector) (st : lstate) (s : sel) (t0 : Z) (wakes : list wake)
   : lstate * list event :=
   let '(st1, e1) := on_autonomous_enable r st s in     (* timer is a local of run() *)
-  let e2 := if robot_exit st1 then [] else run_loop st1 t0 wakes in
-  let '(st2, e3) := do_disable st1 in
-  (st2, e1 ++ e2 ++ e3).
+  let '(st2, e2) := if robot_exit st1 then (st1, []) else run_loop st1 t0 wakes in
+  let '(st3, e3) := do_disable st2 in                  (* self.disable() after the loop *)
+  (st3, e1 ++ e2 ++ e3).
 
 Definition step (r : selector) (st : lstate) (o : op) : option (lstate * list event) :=
   match o with
